@@ -352,7 +352,7 @@ func (r *Report) writeEvidence(verifDir string, spec *PropSpec, wall time.Durati
 	for _, ri := range r.Rules {
 		floors[ri.ID] = ri.Floor
 	}
-	var knownIDs []string
+	knownIDs := []string{}
 	for _, o := range out.Known {
 		knownIDs = append(knownIDs, o.Known+" "+o.Key)
 	}
